@@ -27,6 +27,9 @@ type Typing struct {
 	Seed     uint64 `json:"seed"`
 	Dominant string `json:"dominant"`
 	Mix      int    `json:"mix"`
+	// BytesKeys: string keys may become []byte keys (only generated for a tree where such keys do not make Diff
+	// panic, i.e. with patches/C03-fix-5)
+	BytesKeys bool `json:"bytes_keys,omitempty"`
 }
 
 type typer struct {
@@ -96,6 +99,9 @@ func (ty *typer) conv(v interface{}, underKey bool) interface{} {
 	case float64:
 		return ty.num(x, underKey)
 	case string:
+		if underKey && ty.t.BytesKeys && ty.r.Chance(50) {
+			return []byte(x)
+		}
 		if !underKey && ty.r.Chance(ty.t.Mix) {
 			if ty.r.Bool() {
 				return []byte(x)
@@ -274,6 +280,9 @@ func leafKinds(v interface{}, into map[string]bool) {
 		for k, e := range x {
 			if k == "__key" && e == nil {
 				into["null-key"] = true
+			}
+			if _, isB := e.([]byte); k == "__key" && isB {
+				into["bytes-key"] = true
 			}
 			leafKinds(e, into)
 		}
